@@ -78,6 +78,28 @@ def _rename(prob, mapping_t, mapping_i):
     return p
 
 
+_INT_LIT = r"(?<![A-Za-z0-9_.])(\d+)(?![\d.(eEA-Za-z_])"
+_FLOAT_LIT = r"(?<![A-Za-z0-9_.])(\d+)\.0(?![\deE])"
+
+
+def _literal_twin(rng, prob):
+    import re
+
+    a = prob["assignment"]
+    lhs, rhs = a.split("=", 1)
+    ints = list(re.finditer(_INT_LIT, rhs))
+    floats = list(re.finditer(_FLOAT_LIT, rhs))
+    cands = [("i", m) for m in ints] + [("f", m) for m in floats]
+    if not cands:
+        return None
+    kind, m = rng.choice(cands)
+    new = m.group(1) + ".0" if kind == "i" else m.group(1)
+    q = copy.deepcopy(prob)
+    q["assignment"] = lhs + "=" + rhs[:m.start()] + new + rhs[m.end():]
+    q.pop("expr", None)
+    return q
+
+
 def gen_plan(seed, cfg):
     from .session import _gen_entries
 
@@ -97,6 +119,12 @@ def gen_plan(seed, cfg):
             prob["assignment"] = f"A({','.join(prob['target'])}) = {expr_to_str(prob['expr'])}"
             prob["target_name"] = "A"
         pool.append(prob)
+        # the same problem with one literal spelled as the other numeric type (2 <-> 2.0): equal as
+        # Python numbers, different requests with different text (added after seeded change C-C15-2,
+        # a literal memo keyed by value, was missed)
+        twin = _literal_twin(rng, prob)
+        if twin is not None and rng.random() < 0.6:
+            pool.append(twin)
         # near-duplicates that must NOT share a cached kernel
         r = rng.random()
         if r < 0.3:
